@@ -1,4 +1,5 @@
 from __future__ import annotations
+import math
 import numpy as np
 from numpy.typing import NDArray
 
@@ -49,10 +50,12 @@ def _create_mesh(
     _max_shifts = np.asarray(max_shifts, dtype=np.float32)
     left = -shifts - _max_shifts
     right = -shifts + _max_shifts
+    # Round inward so that the mesh never exceeds the maximum shifts. The small
+    # tolerance is for the floating point error of such as 0.35 * 20.
     local_shifts = [
         [
-            int(round(max(float(shiftl), -1.0) * UPSAMPLE)),
-            int(round(min(float(shiftr), 1.0) * UPSAMPLE)),
+            int(math.ceil(max(float(shiftl), -1.0) * UPSAMPLE - 1e-4)),
+            int(math.floor(min(float(shiftr), 1.0) * UPSAMPLE + 1e-4)),
         ]
         for shiftl, shiftr in zip(left, right)
     ]
